@@ -51,7 +51,8 @@ LEVEL_TEXT = ('Every edit sequence up to the bound is executed on real '
               'increasing unique sequence ids, caller attribution, suspension) '
               'are evaluated on every transition.')
 LEVEL_NOTE = ('Trusted: the monitor in this file. Bounds: sequences <=3 '
-              '(quick) / 4 (thorough) over ~45 operations, two signatures.')
+              'over ~45 operations, two signatures; the thorough tier adds thread '
+              'schedules with a higher occurrence cap and three threads.')
 
 HERE = os.path.abspath(__file__)
 SIG1 = (1, 1, 1, True, (False,), True)   # f(p0, a='d_a', *va, k0, **kw)
@@ -60,7 +61,7 @@ VA = 'VA'
 
 
 def bounds(tier):
-  return dict(seq=3 if tier == 'quick' else 4, vcap=3)
+  return dict(seq=3, vcap=3)
 
 
 def alphabet(world):
@@ -533,6 +534,9 @@ def units(tier, seed):
   # one thread edits inside suspend_tracking blocks while the other does not
   out.append(('threads', 2, 1, None, 'suspend'))
   out.append(('threads', 2, 2, 1, 'suspend'))
+  if tier != 'quick':
+    out.append(('threads', 2, 2, 2))
+    out.append(('threads', 3, 1, 2, 'suspend'))
   return out
 
 
